@@ -1,6 +1,19 @@
+import TinysetModel.Proofs.PropsAux
+import TinysetModel.Proofs.Ctor
+import TinysetModel.Proofs.Demo
 import TinysetModel.Proofs.Consts
-/-! C15 — see /verif/properties.jsonl.  Theorems for this property are being added; the ones
-below are the obligations checked so far. -/
+/-! C15 — capacity and layout hints never change what a set contains.
+
+Hint constructors of the model: `withCapBits c g cap bits` = `with_capacity_and_bits(cap, bits)` (for `bits = 0`
+it draws the zero placeholder of the plain table from the RNG; any `bits > W` is a caller-chosen placeholder),
+`withCapMax c g cap mx` = `with_capacity_and_max(cap, max)`, `denseWithMax`, `withCapOf` = `with_capacity_of(&other)`.
+`Set64::with_capacity(n)` is `Set64::new()` in the source (the argument is ignored), i.e. `.empty`: nothing to prove.
+
+Two layers.  (1) every hint constructor, for EVERY argument value (`cap`, `mx` arbitrary, `bits` any `W`-bit
+value — the argument type of the Rust function) and every RNG outcome, returns a well-formed set with no
+members.  (2) from ANY well-formed set with no members, every history of `insert/remove/contains/len` —
+including inserting the placeholder value and 0 — answers exactly like the ideal set started empty, which is
+also how `new()` answers (C01/C02): `hinted_history`, and side by side with `new()`: `hinted_like_new`. -/
 namespace C15
 open SC
 
@@ -8,4 +21,119 @@ open SC
 theorem consts_match : TinyC.codec64.splits = Gen.bitsplits64 ∧ TinyC.codec32.splits = Gen.bitsplits32 :=
   ⟨bitsplits64_match, bitsplits32_match⟩
 
+section generic
+variable {c : Cfg} {D : Type}
+
+/-! ### 1. the hint constructors return well-formed EMPTY sets -/
+
+/-- `with_capacity_and_bits(cap, bits)`: every `cap`, every `bits < 2^W`, every RNG oracle and state -/
+theorem with_capacity_and_bits (ok : CfgOK c) (g : Rng D) (cap bits : Nat) (hbits : bits < 2 ^ c.W) {d d' : D} {r : Rp}
+    (h : withCapBits c g cap bits d = .ok (r, d')) : WF c r ∧ elems c r = [] := withCapBits_ok ok g cap bits hbits d d' r h
+
+/-- its shape: `cap = 0` gives `new()`; otherwise a block of exactly `cap` zero words whose `bits` is the
+argument, or for `bits = 0` a drawn placeholder above `W` -/
+theorem with_capacity_and_bits_shape (g : Rng D) (cap bits : Nat) {d d' : D} {r : Rp}
+    (h : withCapBits c g cap bits d = .ok (r, d')) :
+    (cap = 0 ∧ r = .empty) ∨ (0 < cap ∧ ∃ bits', r = .heap 0 cap bits' (Array.replicate cap 0) ∧
+      (bits ≠ 0 → bits' = bits) ∧ (bits = 0 → c.W < bits')) := withCapBits_shape g cap bits d d' r h
+
+/-- `with_capacity_and_max(cap, max)`: every `cap`, every `max` -/
+theorem with_capacity_and_max (ok : CfgOK c) (g : Rng D) (cap mx : Nat) {d d' : D} {r : Rp}
+    (h : withCapMax c g cap mx d = .ok (r, d')) : WF c r ∧ elems c r = [] := withCapMax_ok ok g cap mx d d' r h
+
+/-- the dense constructor used by `with_capacity_and_max` and `collect` -/
+theorem dense_with_max (ok : CfgOK c) (mx : Nat) : WF c (denseWithMax c mx) ∧ elems c (denseWithMax c mx) = [] :=
+  denseWithMax_ok ok mx
+
+/-- `with_capacity_of(&other)`: empty, well formed, same `capacity()` -/
+theorem with_capacity_of (ok : CfgOK c) {r : Rp} (wf : WF c r) :
+    WF c (withCapOf r) ∧ elems c (withCapOf r) = [] ∧ capacity (withCapOf r) = capacity r := withCapOf_ok ok wf
+
+/-- an empty well-formed set has `len = 0` and contains nothing -/
+theorem hinted_is_empty (ok : CfgOK c) {r : Rp} (wf : WF c r) (he : elems c r = []) :
+    len r = 0 ∧ ∀ e, e < 2 ^ c.W → contains c r e = false :=
+  ⟨by rw [(absOK_of_wf ok wf).len, he]; rfl,
+   fun e h => by rw [← Bool.not_eq_true, contains_refines ok wf e h, he]; exact List.not_mem_nil⟩
+
+/-! ### 2. … and thereafter behave exactly like `new()` -/
+
+/-- every history on a hinted (well-formed, memberless) set: the answers are those of the ideal set started
+empty, the final value is well formed and represents the final ideal set -/
+theorem hinted_history (ok : CfgOK c) (g : Rng D) (fuel : Nat) (ops : List Op) (hops : ∀ op ∈ ops, op.InRange c.W)
+    {r : Rp} (wf : WF c r) (he : elems c r = []) {d d' : D} {r' : Rp} {outs : List Out}
+    (h : runOps c g fuel r ops d = .ok ((r', outs), d')) :
+    WF c r' ∧ outs = (specRun [] ops).2 ∧ (∀ x, x ∈ elems c r' ↔ x ∈ (specRun [] ops).1) :=
+  run_refines_of_empty ok g fuel ops hops wf he h
+
+/-- side by side: the same history on a hinted set and on `new()`, with any two RNG oracles, states and fuels:
+identical answers, same members, same `len`, and the results compare `==` -/
+theorem hinted_like_new (ok : CfgOK c) {D₁ D₂ : Type} (g₁ : Rng D₁) (g₂ : Rng D₂) (fuel₁ fuel₂ : Nat) (ops : List Op)
+    (hops : ∀ op ∈ ops, op.InRange c.W) {r : Rp} (wf : WF c r) (he : elems c r = [])
+    {d₁ d₁' : D₁} {d₂ d₂' : D₂} {r₁ r₂ : Rp} {o₁ o₂ : List Out}
+    (h1 : runOps c g₁ fuel₁ r ops d₁ = .ok ((r₁, o₁), d₁'))
+    (h2 : runOps c g₂ fuel₂ .empty ops d₂ = .ok ((r₂, o₂), d₂')) :
+    o₁ = o₂ ∧ (∀ x, x ∈ elems c r₁ ↔ x ∈ elems c r₂) ∧ len r₁ = len r₂ ∧ eqSet c r₁ r₂ = true :=
+  hinted_eq_new ok g₁ g₂ fuel₁ fuel₂ ops hops wf he h1 h2
+
+end generic
+
+/-! ### instances: constructor followed by a history, SetU64 and SetU32 -/
+
+theorem bits_then_history_u64 {D : Type} (g : Rng D) (fuel cap bits : Nat) (hbits : bits < 2 ^ 64)
+    (ops : List Op) (hops : ∀ op ∈ ops, op.InRange 64) {d₀ d d' : D} {r r' : Rp} {outs : List Out}
+    (h0 : withCapBits cfg64 g cap bits d₀ = .ok (r, d)) (h : runOps cfg64 g fuel r ops d = .ok ((r', outs), d')) :
+    WF cfg64 r' ∧ outs = (specRun [] ops).2 ∧ (∀ x, x ∈ elems cfg64 r' ↔ x ∈ (specRun [] ops).1) :=
+  run_refines_of_empty cfg64_ok g fuel ops hops (withCapBits_ok cfg64_ok g cap bits hbits d₀ d r h0).1
+    (withCapBits_ok cfg64_ok g cap bits hbits d₀ d r h0).2 h
+theorem bits_then_history_u32 {D : Type} (g : Rng D) (fuel cap bits : Nat) (hbits : bits < 2 ^ 32)
+    (ops : List Op) (hops : ∀ op ∈ ops, op.InRange 32) {d₀ d d' : D} {r r' : Rp} {outs : List Out}
+    (h0 : withCapBits cfg32 g cap bits d₀ = .ok (r, d)) (h : runOps cfg32 g fuel r ops d = .ok ((r', outs), d')) :
+    WF cfg32 r' ∧ outs = (specRun [] ops).2 ∧ (∀ x, x ∈ elems cfg32 r' ↔ x ∈ (specRun [] ops).1) :=
+  run_refines_of_empty cfg32_ok g fuel ops hops (withCapBits_ok cfg32_ok g cap bits hbits d₀ d r h0).1
+    (withCapBits_ok cfg32_ok g cap bits hbits d₀ d r h0).2 h
+
+theorem max_then_history_u64 {D : Type} (g : Rng D) (fuel cap mx : Nat)
+    (ops : List Op) (hops : ∀ op ∈ ops, op.InRange 64) {d₀ d d' : D} {r r' : Rp} {outs : List Out}
+    (h0 : withCapMax cfg64 g cap mx d₀ = .ok (r, d)) (h : runOps cfg64 g fuel r ops d = .ok ((r', outs), d')) :
+    WF cfg64 r' ∧ outs = (specRun [] ops).2 ∧ (∀ x, x ∈ elems cfg64 r' ↔ x ∈ (specRun [] ops).1) :=
+  run_refines_of_empty cfg64_ok g fuel ops hops (withCapMax_ok cfg64_ok g cap mx d₀ d r h0).1
+    (withCapMax_ok cfg64_ok g cap mx d₀ d r h0).2 h
+theorem max_then_history_u32 {D : Type} (g : Rng D) (fuel cap mx : Nat)
+    (ops : List Op) (hops : ∀ op ∈ ops, op.InRange 32) {d₀ d d' : D} {r r' : Rp} {outs : List Out}
+    (h0 : withCapMax cfg32 g cap mx d₀ = .ok (r, d)) (h : runOps cfg32 g fuel r ops d = .ok ((r', outs), d')) :
+    WF cfg32 r' ∧ outs = (specRun [] ops).2 ∧ (∀ x, x ∈ elems cfg32 r' ↔ x ∈ (specRun [] ops).1) :=
+  run_refines_of_empty cfg32_ok g fuel ops hops (withCapMax_ok cfg32_ok g cap mx d₀ d r h0).1
+    (withCapMax_ok cfg32_ok g cap mx d₀ d r h0).2 h
+
+theorem of_then_history_u64 {D : Type} (g : Rng D) (fuel : Nat) {other : Rp} (wo : WF cfg64 other)
+    (ops : List Op) (hops : ∀ op ∈ ops, op.InRange 64) {d d' : D} {r' : Rp} {outs : List Out}
+    (h : runOps cfg64 g fuel (withCapOf other) ops d = .ok ((r', outs), d')) :
+    WF cfg64 r' ∧ outs = (specRun [] ops).2 ∧ (∀ x, x ∈ elems cfg64 r' ↔ x ∈ (specRun [] ops).1) :=
+  run_refines_of_empty cfg64_ok g fuel ops hops (withCapOf_ok cfg64_ok wo).1 (withCapOf_ok cfg64_ok wo).2.1 h
+theorem of_then_history_u32 {D : Type} (g : Rng D) (fuel : Nat) {other : Rp} (wo : WF cfg32 other)
+    (ops : List Op) (hops : ∀ op ∈ ops, op.InRange 32) {d d' : D} {r' : Rp} {outs : List Out}
+    (h : runOps cfg32 g fuel (withCapOf other) ops d = .ok ((r', outs), d')) :
+    WF cfg32 r' ∧ outs = (specRun [] ops).2 ∧ (∀ x, x ∈ elems cfg32 r' ↔ x ∈ (specRun [] ops).1) :=
+  run_refines_of_empty cfg32_ok g fuel ops hops (withCapOf_ok cfg32_ok wo).1 (withCapOf_ok cfg32_ok wo).2.1 h
+
+/-! ### the hypotheses are satisfiable: a caller-chosen placeholder (`bits = 70`), then a history that inserts
+the placeholder value itself and 0 -/
+
+theorem demo_hint : withCapBits cfg64 detRng 10 70 () = .ok (.heap 0 10 70 (Array.replicate 10 0), ()) := by decide +kernel
+def demoOps : List Op := [.ins 70, .ins 0, .con 70, .con 0, .rem 70, .con 0, .len]
+theorem demo_run : runOps cfg64 detRng 6 (.heap 0 10 70 (Array.replicate 10 0)) demoOps () =
+    .ok ((.heap 1 10 3298975782370950072 #[0, 0, 3298975782370950072, 0, 0, 0, 0, 0, 0, 0],
+      [.bool true, .bool true, .bool true, .bool true, .bool true, .bool true, .nat 1]), ()) := by decide +kernel
+example : [.bool true, .bool true, .bool true, .bool true, .bool true, .bool true, .nat 1] = (specRun [] demoOps).2 :=
+  (bits_then_history_u64 detRng 6 10 70 (by decide) demoOps (by decide) demo_hint demo_run).2.1
+/-- a drawn placeholder (`bits = 0`) and a dense hint -/
+example : withCapBits cfg64 detRng 10 0 () = .ok (.heap 0 10 6155844928113846750 (Array.replicate 10 0), ()) := by decide +kernel
+example : withCapMax cfg64 detRng 10 1000 () = .ok (.heap 0 19 64 (Array.replicate 19 0), ()) := by decide +kernel
+
 end C15
+
+#print axioms C15.with_capacity_and_bits
+#print axioms C15.with_capacity_and_max
+#print axioms C15.with_capacity_of
+#print axioms C15.hinted_history
+#print axioms C15.hinted_like_new
